@@ -1,6 +1,7 @@
 CFG = {
     "lean_targets": ["Norad.Props.C20"],
     "audit": "Norad/Audit/C20.lean",
+    "extract": "kurbo_conv",
     "rule": ("paths: every sequence over {move,line,offcurve,curve,qcurve} up to length 7 (quick) / 8 (thorough) with random pairwise "
              "distinct even-integer coordinates (lengths 1-4 also with coincident points), legal ones as returned by Glyph::parse_raw, "
              "illegal ones built through Contour::new/ContourPoint::new; plus 40k/400k random mostly-legal contours of up to ~150 points "
@@ -16,6 +17,7 @@ CFG = {
         "modelled, not verified: kurbo 0.11.3 (BezPath element storage, Point::midpoint = 0.5*(a+b) per coordinate, Affine * Point); the kurbo formulas are separate definitions of the model (KAffine.apply) and are compared with the real crate on every transform line",
         "path coordinates are compared exactly on integer inputs (midpoints of even integers are exact in f64 and in the model's Int arithmetic); floating-point rounding of midpoints of arbitrary doubles is kurbo's and is not modelled",
         "the transform model is instantiated at Lean's Float (IEEE binary64, no fused multiply-add) for the bit-for-bit comparison and at Int for the exact formula check; the theorems hold for any type with + and *",
+        "tools/extract_kurbo_conv.py (regex translator of Contour::is_closed / to_kurbo — start-point selection, walks, off-curve-only block, the five match arms, the slice-pattern arms of the Curve arm, the QCurve loop, close_path calls —, of ContourPoint::transform with its expression structure, of both From impls and of kurbo's vendored Affine * Point; trusted in one direction only: a wrong extraction can make a source_* theorem fail or fall back to the pinned copy, it cannot make a false theorem check)",
         "legality is C11's predicate (C11.Legal / legalB); that the glif parser accepts exactly the legal sequences is C11's theorem and correspondence",
     ],
     "assumptions": [
@@ -31,8 +33,12 @@ MANIFEST = {
              "(+ segment_kinds), oncurves_in_order, closed_returns_to_start, no_point_lost; transform_formula, transform_eq_kurbo, affine_roundtrip, "
              "toK_coeffs over any type with + and *. The model is tied to the code by running to_kurbo on all type sequences up to length 7/8 and "
              "random long contours with exact integer coordinates, and transform / kurbo::Affine on 100k/1M value tuples bit for bit; the six rules of "
-             "the property are evaluated as executable predicates on the implementation's own path."),
+             "the property are evaluated as executable predicates on the implementation's own path. Source-level tie: tools/extract_kurbo_conv.py "
+             "translates to_kurbo (arms, thresholds, error, rotation, off-curve-only block, close_path), transform, both From impls and kurbo's "
+             "vendored Affine * Point to Lean on every run; source_toKurbo_eq_model / source_toKurbo_eq_spec / source_never_closes / "
+             "source_transform_eq_model / source_conversions_eq_model / source_kurbo_apply_eq_model / source_transform_property prove that the "
+             "regenerated definitions are the model's, so every C20 theorem is re-checked against the source as it is now."),
     "design_ref": "5 / C20, Appendix D",
     "note": "trusted: Lean kernel, the three standard axioms, harness and driver glue, kurbo's path type and midpoint; requires the fix/c20 commits (three reproduced defects repaired)",
-    "technique": "Lean 4 theorems (loop = segment specification by induction, rotation lemma, legality => well-formed segments via C11's trailOffs) + exhaustive-to-length-7 correspondence with exact coordinates + bit-for-bit transform comparison",
+    "technique": "Lean 4 theorems (loop = segment specification by induction, rotation lemma, legality => well-formed segments via C11's trailOffs) + exhaustive-to-length-7 correspondence with exact coordinates + bit-for-bit transform comparison + source translator (to_kurbo / transform / From impls / kurbo Mul<Point> -> Generated/KurboConv.lean) with audited source_*_eq_model theorems",
 }
